@@ -51,6 +51,7 @@ type LCase struct {
 type freshCache struct{}
 
 func (freshCache) CheckAndSet(uint64) bool              { return false }
+func (freshCache) Has(uint64) bool                      { return false }
 func (freshCache) DB(string) numbercache.ICache[uint64] { return freshCache{} }
 
 var identRe = regexp.MustCompile(`^[a-zA-Z_][a-zA-Z0-9_]*$`)
